@@ -177,6 +177,8 @@ func init() {
 		c.Weights["scalein"] = 6
 		c.Weights["template"] = 6
 		c.Weights["podorphan"] = 4
+		c.Weights["podlabel"] = 6
+		c.Weights["mkpod"] = 4
 		c.Weights["mkrev"] = 2
 		for i := range c.Sets {
 			if c.Sets[i].Replicas < 2 {
